@@ -129,7 +129,10 @@ class World(object):
         if expiry == 'numeric-deprecated':
             kw = {'data_expiry': EXPIRY}        # the deprecated spelling of expiry=
         else:
-            kw = {'expiry': {'session': SESSION, 'never': NEVER, 'numeric': EXPIRY}[expiry]}
+            # the constants as a configuration file would deliver them: equal values, not the module's own objects
+            never = common.fresh_str(NEVER) if isinstance(NEVER, str) else NEVER
+            session = float(SESSION) if (isinstance(SESSION, int) and explicit_secret is False) else SESSION
+            kw = {'expiry': {'session': session, 'never': never, 'numeric': EXPIRY}[expiry]}
         if custom_names:
             kw.update(arg_name='sess', cookie_name='sid')
         if explicit_secret == 'unicode':
